@@ -374,7 +374,8 @@ PROPS = {
                       "lower-case hex, kind in 0..65535, tags with a non-empty name), ids/pubkeys/sigs/kinds/tags each characterised (validID_iff ... validTag_iff), the label stage accepts any "
                       "JSON white space before and after '[' (labelOf_wellformed; the regexp is regenerated and pinned). Every validator condition is regenerated from the source, so a flipped "
                       "operator changes the model the theorems are about. The composition with parsing (JSON text -> message) is tied by the differential run and judged by "
-                      "the monitors: generated well-formed texts must be parsed and valid, and nothing judged valid may break the constraints (`msgOkB`).",
+                      "the monitors: generated well-formed texts must be parsed and valid, and nothing judged valid may break the constraints (`msgOkB`, proved to be exactly the "
+                      "constraint set of the theorems: msgOkB_iff, and equal to the validators on every message: validClientMsg_eq_monitor).",
         "level_note": "Trusted: Lean kernel + standard axioms; go2lean; harness/driver; Go regexp semantics of \\s and \\w (hand-translated scanner, pinned pattern); strconv.ParseInt (hand-modelled).",
         "assumptions": ["a JSON null in place of an object is not claimed either way", "signed or zero-padded kind numbers inside an a value are not claimed either way"],
     },
